@@ -40,6 +40,13 @@ def evaluate(name, confirm, tier, also):
     res = dict(name=name, property=pid, title=meta.get('title'))
     try:
         rc, out = sh(['git', '-C', wt, 'apply', os.path.join(d, 'patch.diff')])
+        if rc:      # /repo moved on (later fix: commits): try a 3-way merge, then a rebased copy
+            rc, out = sh(['git', '-C', wt, 'apply', '--3way', os.path.join(d, 'patch.diff')])
+            res['patch_applied'] = '3way'
+        if rc and os.path.exists(os.path.join(d, 'patch.rebased.diff')):
+            sh(['git', '-C', wt, 'checkout', '--', '.'])
+            rc, out = sh(['git', '-C', wt, 'apply', os.path.join(d, 'patch.rebased.diff')])
+            res['patch_applied'] = 'rebased'
         if rc:
             res['error'] = 'patch does not apply: ' + out[-300:]
             return res
